@@ -11,6 +11,7 @@ import (
 	"net/http/httptest"
 	"net/url"
 	"sync"
+	"time"
 
 	"cuelabs.dev/go/oci/ociregistry"
 	"cuelabs.dev/go/oci/ociregistry/ociclient"
@@ -198,13 +199,23 @@ func (r *recorder) reset() {
 
 // first returns the first error response since the last reset: the failure that propagates
 // (a handler's deferred BlobWriter.Close may provoke further, ignored, failures below it).
+//
+// The record is appended when the handler returns; net/http may have flushed a large response
+// before that, so the client can be back first: wait for the record for a while.
 func (r *recorder) first() (wireRec, bool) {
-	r.mu.Lock()
-	defer r.mu.Unlock()
-	if len(r.recs) == 0 {
-		return wireRec{}, false
+	for i := 0; ; i++ {
+		r.mu.Lock()
+		if len(r.recs) > 0 {
+			rec := r.recs[0]
+			r.mu.Unlock()
+			return rec, true
+		}
+		r.mu.Unlock()
+		if i >= 400 {
+			return wireRec{}, false
+		}
+		time.Sleep(5 * time.Millisecond)
 	}
-	return r.recs[0], true
 }
 
 type recWriter struct {
